@@ -15,20 +15,36 @@ Set Warnings "-unused-intro-pattern".
 
 (* facts that survive allocations of reference-free containers and writes to cells >= b *)
 Definition fstable (b : nat) (F : heap_t -> Prop) : Prop :=
-  astable F /\
-  (forall h c o0 o, b <= c -> nth_error h c = Some o0 -> shape o = shape o0 -> shape o0 < 3 ->
+  (forall h o, b <= length h -> shape o < 3 -> norefs o -> F h -> F (h ++ [o])) /\
+  (forall h c o0 o, b <= length h -> b <= c -> nth_error h c = Some o0 -> shape o = shape o0 -> shape o0 < 3 ->
      (forall c', orefs c' o = orefs c' o0) -> F h -> F (set_nth c o h)).
 
 Lemma cstable_fstable b F : cstable F -> fstable b F.
 Proof.
-  intros [A B]. split; auto. intros h c o0 o Hb N S Sc Eq Fh. eapply B; eauto.
+  intros [A B]. split; [intros; apply A; auto|]. intros h c o0 o Hl Hb N S Sc Eq Fh. eapply B; eauto.
   intro c'. rewrite Eq. lia.
 Qed.
 
 Lemma fstable_and b F G : fstable b F -> fstable b G -> fstable b (fun h => F h /\ G h).
 Proof.
-  intros [A1 B1] [A2 B2]. split; [now apply astable_and|].
-  intros h c o0 o Hb N S Sc Le [H1 H2]. split; eauto.
+  intros [A1 B1] [A2 B2]. split.
+  - intros h o Hl S Nr [H1 H2]. split; auto.
+  - intros h c o0 o Hl Hb N S Sc Le [H1 H2]. split; eauto.
+Qed.
+
+(* facts about the content and the reference counts of the cells below b *)
+Lemma below_fstable b (F : heap_t -> Prop) :
+  (forall h h', (forall c, c < b -> nth_error h' c = nth_error h c) ->
+                (forall c, c < b -> refcount h' c = refcount h c) -> F h -> F h') ->
+  fstable b F.
+Proof.
+  intro H. split.
+  - intros h o Hl S Nr Fh. eapply H; [| |exact Fh].
+    + intros c Hc. rewrite nth_error_app1; auto. lia.
+    + intros c Hc. rewrite refcount_app. simpl. rewrite (norefs_orefs o c Nr). lia.
+  - intros h c o0 o Hl Hb N S Sc Eq Fh. eapply H; [| |exact Fh].
+    + intros c1 Hc. rewrite set_nth_other; auto. lia.
+    + intros c1 Hc. pose proof (refcount_set_nth h c o o0 c1 N). rewrite (Eq c1) in H0. lia.
 Qed.
 
 (* a fold whose invariant knows the elements already processed *)
@@ -61,11 +77,11 @@ Proof. intro H. destruct v; auto. exfalso. now apply (H l). Qed.
 Section DcEq.
   Variable ct : ctable.
 
-  Lemma dc_nonref f v memo : nonref v -> dc ct (S f) v memo = ret (v, memo).
+  Lemma dc_nonref f v (memo : memo_t) : nonref v -> dc ct (S f) v memo = ret (v, memo).
   Proof. intro H. destruct v; try reflexivity. exfalso. now apply (H l). Qed.
 
   (* one level of dc on a reference that is not in the memo *)
-  Lemma dc_ref f l memo :
+  Lemma dc_ref f l (memo : memo_t) :
     assoc l memo = None ->
     dc ct (S f) (VRef l) memo =
       (o <- read l ;;
@@ -153,8 +169,12 @@ Section DcContainer.
     CP F b lx o (h ++ [o1]) /\ loose (h ++ [o1]) (VRef (length h)) /\
     nth_error (h ++ [o1]) (length h) = Some o1.
   Proof.
-    intros [SA _] S Nr (I & Hb & N).
-    destruct (IF_alloc ct Hflat F h o1 SA S Nr I) as [I1 L1].
+    intros [SA _] S Nr ((I & Fh) & Hb & N).
+    assert (I1 : IF F (h ++ [o1])) by (split; [apply Inv_alloc; auto|apply SA; auto]).
+    assert (L1 : loose (h ++ [o1]) (VRef (length h))).
+    { simpl. split; [rewrite app_length; simpl; lia|].
+      rewrite refcount_app. simpl. rewrite (norefs_orefs o1 _ Nr).
+      destruct I as [_ (Hc & _)]. rewrite (refcount_fresh h (length h) Hc); lia. }
     split; [split; [exact I1|split]|split; [exact L1|]].
     - rewrite app_length. simpl. lia.
     - rewrite nth_error_app1; auto. apply nth_error_Some. congruence.
@@ -170,10 +190,11 @@ Section DcContainer.
     nth_error (set_nth l' o1 h) l' = Some o1.
   Proof.
     intros [_ SW] ((I & Fh) & Hb & N) Hl Ne N' S Sc Le Z.
+    assert (SW' := SW h l' o0 o1 Hb Hl N' S Sc Le Fh).
     assert (L : l' < length h) by (apply nth_error_Some; congruence).
     split; [split; [split|split]|split].
     - eapply Inv_write_loose; eauto. intro c'. rewrite Le. lia.
-    - eapply SW; eauto.
+    - exact SW'.
     - now rewrite set_nth_length.
     - rewrite set_nth_other; auto.
     - simpl. split; [now rewrite set_nth_length|].
@@ -182,7 +203,7 @@ Section DcContainer.
   Qed.
 
   (* deepcopy of a container of non-references that is not in the memo *)
-  Lemma dc_container f lx memo o b F :
+  Lemma dc_container f lx (memo : memo_t) o b F :
     fstable b F -> norefs o -> shape o < 3 -> assoc lx memo = None ->
     T (CP F b lx o) (dc ct (S (S f)) (VRef lx) memo)
       (fun r h => CP F b lx o h /\ exists l', r = (VRef l', (lx, l') :: memo) /\ b <= l' /\
@@ -354,3 +375,359 @@ Proof.
     apply check_nonref_heap. eapply norefs_set; eauto.
   - rewrite N, N'. destruct o; auto.
 Qed.
+
+
+Section DcInstance.
+  Variable ct : ctable.
+  Hypothesis Hflat : flat_table ct.
+  Notation Inv := (Inv ct).
+
+  Definition cont_at (h : heap_t) (lx : loc) : Prop :=
+    exists o, nth_error h lx = Some o /\ norefs o /\ shape o < 3.
+
+  Definition ref_entries_ok (k : cls) (h : heap_t) (d : list (nat * val)) : Prop :=
+    forall a lx, In (a, VRef lx) d ->
+      cont_at h lx /\ refcount h lx = 1 /\ (forall sp, lookup_attr k a = Some sp -> a_dnc sp = false).
+
+  (* a flat instance: every reference it holds is to a container of non-references that
+     nobody else references (and is not do_not_copy); the class is copied normally *)
+  Definition FI (h : heap_t) (l : loc) (cl : cid) (d : list (nat * val)) (k : cls) : Prop :=
+    nth_error h l = Some (OInst cl d) /\ lookup_cls ct cl = Some k /\ c_dnc k = false /\
+    c_post_copy k = None /\ ref_entries_ok k h d.
+
+  (* the cells below b keep their content and their reference counts *)
+  Definition frame_rel (b : nat) (h0 h : heap_t) : Prop :=
+    (forall c, c < b -> nth_error h c = nth_error h0 c) /\
+    (forall c, c < b -> refcount h c = refcount h0 c) /\ b <= length h.
+
+  Lemma frame_rel_refl h : frame_rel (length h) h h.
+  Proof. split; auto. Qed.
+
+  Lemma frame_rel_trans b b' h0 h1 h2 :
+    b <= b' -> frame_rel b h0 h1 -> frame_rel b' h1 h2 -> frame_rel b h0 h2.
+  Proof.
+    intros L (A1 & B1 & C1) (A2 & B2 & C2). split; [|split; [|lia]].
+    - intros c Hc. rewrite A2 by lia. auto.
+    - intros c Hc. rewrite B2 by lia. auto.
+  Qed.
+
+  Lemma Inv_alloc_inst h cl : Inv h -> Inv (h ++ [OInst cl []]).
+  Proof.
+    intros [T (Hc & Hk & Ho)]. split.
+    - apply TI_alloc; auto. intros k a v sp _ [].
+    - split; [|split].
+      + intros l x c N I. rewrite app_length. simpl.
+        apply nth_error_snoc in N. destruct N as [[L N]|[-> ->]]; [specialize (Hc _ _ _ N I); lia|destruct I].
+      + intros l cl0 d N. apply nth_error_snoc in N. destruct N as [[L N]|[-> E]]; [eauto|].
+        inversion E; subst. constructor.
+      + intros l cl0 d k a c sp N Hk' Hi Ha Hf. rewrite refcount_app. cbn [refcount].
+        assert (Z : orefs c (OInst cl []) = 0) by reflexivity. rewrite Z.
+        apply nth_error_snoc in N. destruct N as [[L N]|[-> E]].
+        * rewrite (Ho _ _ _ _ _ _ _ N Hk' Hi Ha Hf). lia.
+        * inversion E; subst. destruct Hi.
+  Qed.
+
+  Lemma NoDup_prefix_snoc {A} (xs : list A) x rest : NoDup (xs ++ x :: rest) -> NoDup (xs ++ [x]).
+  Proof.
+    intro H. apply NoDup_app_cons_end.
+    - apply NoDup_remove_1 in H. clear -H. induction xs; simpl in *; [constructor|].
+      inversion H; subst. constructor; [|auto]. intro Hi. apply H2. apply in_or_app. auto.
+    - apply NoDup_remove_2 in H. intro Hi. apply H. apply in_or_app. auto.
+  Qed.
+
+  Lemma cnt_snoc c xs v : cnt c (xs ++ [v]) = cnt c xs + (if is_ref c v then 1 else 0).
+  Proof. rewrite cnt_app, cnt_cons. assert (Z0 : cnt c [] = 0) by reflexivity. rewrite Z0. lia. Qed.
+
+  Lemma map_snd_snoc (d : list (nat * val)) a v : map snd (d ++ [(a, v)]) = map snd d ++ [v].
+  Proof. now rewrite map_app. Qed.
+  Lemma map_fst_snoc (d : list (nat * val)) a v : map fst (d ++ [(a, v)]) = map fst d ++ [a].
+  Proof. now rewrite map_app. Qed.
+
+  (* the invariant of the attribute loop *)
+  Definition CI (h0 : heap_t) (new : loc) (cl : cid) (k : cls)
+             (done : list (nat * val)) (m : memo_t) (h : heap_t) : Prop :=
+    frame_rel (length h0) h0 h /\ Inv h /\
+    (exists done', nth_error h new = Some (OInst cl done') /\ map fst done' = map fst done /\
+                   ref_entries_ok k h done') /\
+    refcount h new = 0 /\
+    (forall lx, assoc lx m <> None -> exists a, In (a, VRef lx) done).
+
+  Definition CE (h0 : heap_t) (h : heap_t) : Prop := frame_rel (length h0) h0 h /\ Inv h.
+
+  (* appending the entry (a, v) to the dict of the instance being built *)
+  Lemma CI_append h0 new cl k (done : list (nat * val)) h (done' : list (nat * val)) a x v (m' : memo_t) :
+    new = length h0 ->
+    frame_rel (length h0) h0 h -> Inv h ->
+    nth_error h new = Some (OInst cl done') -> map fst done' = map fst done ->
+    ref_entries_ok k h done' -> refcount h new = 0 ->
+    NoDup (map fst (done ++ [(a, x)])) ->
+    (* the value appended: a non-reference, or a fresh container copy *)
+    (nonref v \/ exists l', v = VRef l' /\ length h0 <= l' /\ l' <> new /\ cont_at h l' /\ refcount h l' = 0 /\
+                            (forall sp, lookup_attr k a = Some sp -> a_dnc sp = false)) ->
+    (forall k0 sp, lookup_cls ct cl = Some k0 -> lookup_attr k0 a = Some sp ->
+                   check_type FUEL ct h v (a_ty sp) = true) ->
+    (forall lx, assoc lx m' <> None -> exists a0, In (a0, VRef lx) (done ++ [(a, x)])) ->
+    CI h0 new cl k (done ++ [(a, x)]) m' (set_nth new (OInst cl (done' ++ [(a, v)])) h).
+  Proof.
+    intros En (FA & FB & FC) I N Ek Re Zn Nd Hv Cv Hm.
+    pose proof I as [T O]. pose proof O as (Hc & Hk & Ho).
+    assert (Ln : new < length h) by (apply nth_error_Some; congruence).
+    assert (Cd : forall c, cnt c (map snd done') = 0 \/ c <> new).
+    { intro c. destruct (Nat.eq_dec c new) as [->|]; auto. left.
+      pose proof (refcount_ge h new _ new N) as G. unfold orefs in G. simpl in G. lia. }
+    assert (Rf : forall c, refcount (set_nth new (OInst cl (done' ++ [(a, v)])) h) c
+                           = refcount h c + (if is_ref c v then 1 else 0)).
+    { intro c. pose proof (refcount_set_nth h new (OInst cl (done' ++ [(a, v)])) _ c N) as E.
+      unfold orefs in E. simpl in E. rewrite map_snd_snoc, cnt_snoc in E. lia. }
+    assert (Vn : is_ref new v = false).
+    { destruct Hv as [Hv|(l' & -> & _ & Ne & _)]; [now apply nonref_is_ref|]. simpl. now apply Nat.eqb_neq. }
+    split; [|split; [|split; [|split]]].
+    - (* frame *)
+      split; [|split; [|now rewrite set_nth_length]].
+      + intros c Hc0. rewrite set_nth_other by lia. auto.
+      + intros c Hc0. rewrite Rf.
+        assert (is_ref c v = false).
+        { destruct Hv as [Hv|(l' & -> & Hl' & _)]; [now apply nonref_is_ref|]. simpl. apply Nat.eqb_neq. lia. }
+        rewrite H. rewrite <- FB by auto. lia.
+    - (* Inv *)
+      split.
+      + eapply TI_write_inst; eauto. intros k0 a0 v0 sp Hk0 Hi Ha _.
+        apply in_app_or in Hi. destruct Hi as [Hi|[E|[]]]; [eapply T; eauto|].
+        inversion E; subst a0 v0. eauto.
+      + eapply Owned_write_inst; eauto.
+        * rewrite map_fst_snoc, Ek. rewrite map_fst_snoc in Nd. exact Nd.
+        * intros a1 c1 Hi. apply in_app_or in Hi. destruct Hi as [Hi|[E|[]]].
+          -- eapply Hc; [exact N|]. simpl. apply in_map_iff. exists (a1, VRef c1). auto.
+          -- inversion E; subst. destruct Hv as [Hv|(l' & E' & _ & _ & (o & No & _) & _)].
+             ++ exfalso. eapply Hv; reflexivity.
+             ++ inversion E'; subst. apply nth_error_Some. congruence.
+        * intros a1 c1 Hi. rewrite map_snd_snoc, cnt_snoc. apply in_app_or in Hi. destruct Hi as [Hi|[E|[]]].
+          -- left. split; auto.
+             assert (is_ref c1 v = false).
+             { destruct Hv as [Hv|(l' & -> & _ & _ & _ & Zl & _)]; [now apply nonref_is_ref|].
+               simpl. apply Nat.eqb_neq. intros ->.
+               pose proof (refcount_ge h new _ c1 N) as G. unfold orefs in G. simpl in G.
+               pose proof (entry_counted c1 done' a1 Hi). lia. }
+             rewrite H. lia.
+          -- inversion E; subst a1 v. right.
+             destruct Hv as [Hv|(l' & E' & _ & _ & _ & Zl & _)]; [exfalso; eapply Hv; reflexivity|].
+             inversion E'; subst l'. split; auto. simpl. rewrite Nat.eqb_refl.
+             pose proof (refcount_ge h new _ c1 N) as G. unfold orefs in G. simpl in G. lia.
+        * intros c1 G1. rewrite map_snd_snoc, cnt_snoc.
+          assert (is_ref c1 v = false).
+          { destruct Hv as [Hv|(l' & -> & _ & _ & _ & Zl & _)]; [now apply nonref_is_ref|].
+            simpl. apply Nat.eqb_neq. intros ->. lia. }
+          rewrite H. lia.
+    - (* the new dict *)
+      exists (done' ++ [(a, v)]). split; [apply nth_error_set_nth_same; auto|].
+      split; [rewrite !map_fst_snoc, Ek; reflexivity|].
+      intros a1 lx Hi. apply in_app_or in Hi. destruct Hi as [Hi|[E|[]]].
+      + destruct (Re a1 lx Hi) as ((o & No & Nr & So) & R1 & Dn).
+        assert (lx <> new) by (intros ->; rewrite N in No; inversion No; subst; simpl in So; lia).
+        split; [exists o; rewrite set_nth_other by auto; auto|]. split; auto.
+        rewrite Rf.
+        assert (is_ref lx v = false).
+        { destruct Hv as [Hv|(l' & -> & _ & _ & _ & Zl & _)]; [now apply nonref_is_ref|].
+          simpl. apply Nat.eqb_neq. intros ->. lia. }
+        rewrite H0. lia.
+      + inversion E; subst a1 v.
+        destruct Hv as [Hv|(l' & E' & _ & Ne & (o & No & Nr & So) & Zl & Dn)]; [exfalso; eapply Hv; reflexivity|].
+        inversion E'; subst l'.
+        split; [exists o; rewrite set_nth_other by auto; auto|]. split; auto.
+        rewrite Rf. simpl. rewrite Nat.eqb_refl. lia.
+    - rewrite Rf, Vn. lia.
+    - exact Hm.
+  Qed.
+End DcInstance.
+
+Section DcInstance2.
+  Variable ct : ctable.
+  Hypothesis Hflat : flat_table ct.
+  Notation Inv := (Inv ct).
+
+  Lemma FUEL_SSS : exists f, FUEL = S (S (S f)).
+  Proof. Local Transparent FUEL. exists 61. reflexivity. Qed.
+  #[local] Opaque FUEL.
+
+  Lemma assoc_cons {A} k k0 (v : A) t : assoc k ((k0, v) :: t) = if k0 =? k then Some v else assoc k t.
+  Proof. unfold assoc. simpl. destruct (k0 =? k); reflexivity. Qed.
+
+  Lemma attr_copy_nonref k a x (m : memo_t) f : nonref x ->
+    (match lookup_attr k a with
+     | Some sp => if a_dnc sp then ret (x, m)
+                  else if val_is_scalar x then ret (x, m) else dc ct (S (S f)) x m
+     | None => if val_is_scalar x then ret (x, m) else dc ct (S (S f)) x m
+     end) = ret (x, m).
+  Proof.
+    intro H. rewrite (dc_nonref ct (S f) x m H).
+    destruct (lookup_attr k a) as [sp|]; [destruct (a_dnc sp)|]; destruct (val_is_scalar x); reflexivity.
+  Qed.
+
+  Lemma append_entry_run h0 new cl k (done done' : list (nat * val)) a x v (m' : memo_t) s0 :
+    new = length h0 ->
+    frame_rel (length h0) h0 (heap s0) -> Inv (heap s0) ->
+    nth_error (heap s0) new = Some (OInst cl done') -> map fst done' = map fst done ->
+    ref_entries_ok k (heap s0) done' -> refcount (heap s0) new = 0 ->
+    NoDup (map fst (done ++ [(a, x)])) ->
+    (nonref v \/ exists l', v = VRef l' /\ length h0 <= l' /\ l' <> new /\ cont_at (heap s0) l' /\
+                            refcount (heap s0) l' = 0 /\
+                            (forall sp, lookup_attr k a = Some sp -> a_dnc sp = false)) ->
+    (forall k0 sp, lookup_cls ct cl = Some k0 -> lookup_attr k0 a = Some sp ->
+                   check_type FUEL ct (heap s0) v (a_ty sp) = true) ->
+    (forall lx, assoc lx m' <> None -> exists a0, In (a0, VRef lx) (done ++ [(a, x)])) ->
+    match (o' <- read new ;;
+           match o' with
+           | OInst c' d' => write new (OInst c' (d' ++ [(a, v)])) ;;; ret m'
+           | _ => fail RuntimeErr end) s0 with
+    | (Ok r, s1) => CI ct h0 new cl k (done ++ [(a, x)]) r (heap s1)
+    | (Err _, s1) => CE ct h0 (heap s1)
+    end.
+  Proof.
+    intros En FR I N Ek Re Zn Nd Hv Cv Hm.
+    unfold bind at 1. unfold read. rewrite N.
+    unfold bind at 1. erewrite write_eq by eauto. cbn [ret heap].
+    eapply CI_append; eauto.
+  Qed.
+
+  Lemma entry_not_twice (done rest : list (nat * val)) a x a' x' :
+    NoDup (map fst (done ++ (a, x) :: rest)) -> In (a', x') done -> a' <> a.
+  Proof.
+    intros Nd Hi ->. rewrite map_app in Nd. simpl in Nd. apply NoDup_remove_2 in Nd.
+    apply Nd. apply in_or_app. left. apply in_map_iff. exists (a, x'). auto.
+  Qed.
+
+  Theorem dc_instance f l s cl (d : list (nat * val)) k :
+    Inv (heap s) -> FI ct (heap s) l cl d k ->
+    match dc ct (S (S (S f))) (VRef l) [] s with
+    | (Ok r, s') =>
+        exists new d', fst r = VRef new /\ length (heap s) <= new /\
+          frame_rel (length (heap s)) (heap s) (heap s') /\ Inv (heap s') /\
+          FI ct (heap s') new cl d' k /\ map fst d' = map fst d /\ refcount (heap s') new = 0
+    | (Err _, s') => CE ct (heap s) (heap s')
+    end.
+  Proof.
+    intros I0 (N & Hk & Hdnc & Hpc & Re0).
+    set (h0 := heap s) in *. set (new := length h0).
+    assert (Ndd : NoDup (map fst d)) by (destruct I0 as [_ (_ & Hku & _)]; eapply Hku; eauto).
+    rewrite (dc_ref ct (S (S f)) l [] eq_refl).
+    unfold bind at 1. unfold read. fold h0. rewrite N. cbv beta iota. rewrite Hk, Hdnc.
+    unfold bind at 1. unfold alloc at 1. fold h0. fold new.
+    set (STEP := fun (m : memo_t) (p : nat * val) =>
+                   let '(a, x) := p in
+                   r <- (match lookup_attr k a with
+                         | Some sp => if a_dnc sp then ret (x, m)
+                                      else if val_is_scalar x then ret (x, m) else dc ct (S (S f)) x m
+                         | None => if val_is_scalar x then ret (x, m) else dc ct (S (S f)) x m
+                         end) ;;
+                   o' <- read new ;;
+                   match o' with
+                   | OInst c' d' => write new (OInst c' (d' ++ [(a, fst r)])) ;;; ret (snd r)
+                   | _ => fail RuntimeErr end).
+    assert (Step : forall done x rest m, d = done ++ x :: rest ->
+              T (CI ct h0 new cl k done m) (STEP m x)
+                (fun m' h => CI ct h0 new cl k (done ++ [x]) m' h) (CE ct h0)).
+    { intros done [a xv] rest m Ed s0 (FR & I & (done' & Nn & Ek & Re) & Zn & Hm).
+      assert (Nd1 : NoDup (map fst (done ++ [(a, xv)]))).
+      { rewrite Ed in Ndd. rewrite map_app in Ndd |- *. simpl in *. now apply NoDup_prefix_snoc in Ndd. }
+      assert (Hin : In (a, xv) d) by (rewrite Ed; apply in_or_app; right; left; reflexivity).
+      assert (T0 : forall k0 sp, lookup_cls ct cl = Some k0 -> lookup_attr k0 a = Some sp ->
+                                 check_type FUEL ct h0 xv (a_ty sp) = true).
+      { intros k0 sp Hk0 Ha0. destruct I0 as [T0 _]. eapply T0; eauto. }
+      assert (Cx : nonref xv \/ exists lx, xv = VRef lx)
+        by (destruct xv; [left; intros c E; discriminate ..|right; eauto]).
+      unfold STEP.
+      destruct Cx as [Hx|[lx ->]].
+      - rewrite (attr_copy_nonref k a xv m f Hx). rewrite bind_ret_l. cbn [fst snd].
+        eapply append_entry_run; eauto.
+        + intros k0 sp Hk0 Ha0. rewrite <- (check_nonref_heap ct FUEL (a_ty sp) xv h0 (heap s0) Hx). eauto.
+        + intros lx0 Hl0. destruct (Hm lx0 Hl0) as [a0 Hi0]. exists a0. apply in_or_app. auto.
+      - destruct (Re0 a lx Hin) as ((o & No & Nr & So) & R1 & Dn).
+        assert (Llx : lx < length h0) by (apply nth_error_Some; congruence).
+        assert (Am : assoc lx m = None).
+        { destruct (assoc lx m) eqn:Am; auto. exfalso.
+          destruct (Hm lx) as [a' Hi']; [congruence|].
+          assert (Na : a' <> a) by (rewrite Ed in Ndd; eapply entry_not_twice; eauto).
+          assert (Hi2 : In (a', VRef lx) d) by (rewrite Ed; apply in_or_app; auto).
+          pose proof (cnt_two_entries lx d a' a Na Hi2 Hin) as C2.
+          pose proof (refcount_ge h0 l _ lx N) as G. unfold orefs in G. simpl in G. lia. }
+        assert (Em : (match lookup_attr k a with
+                      | Some sp => if a_dnc sp then ret (VRef lx, m)
+                                   else if val_is_scalar (VRef lx) then ret (VRef lx, m)
+                                        else dc ct (S (S f)) (VRef lx) m
+                      | None => if val_is_scalar (VRef lx) then ret (VRef lx, m)
+                                else dc ct (S (S f)) (VRef lx) m
+                      end) = dc ct (S (S f)) (VRef lx) m).
+        { destruct (lookup_attr k a) as [sp|] eqn:Ea; [rewrite (Dn sp eq_refl)|]; reflexivity. }
+        rewrite Em. clear Em.
+        set (bj := length (heap s0)).
+        destruct FR as (FA & FB & FC).
+        assert (Hb1 : forall a1 l1, In (a1, VRef l1) done' -> l1 < bj).
+        { intros a1 l1 Hi1. destruct (Re a1 l1 Hi1) as ((o1 & No1 & _) & _). apply nth_error_Some. congruence. }
+        assert (Hnb : new < bj) by (apply nth_error_Some; congruence).
+        set (Fj := fun h' : heap_t =>
+                     ((forall c, c < length h0 -> nth_error h' c = nth_error h0 c) /\
+                      (forall c, c < length h0 -> refcount h' c = refcount h0 c) /\
+                      nth_error h' new = Some (OInst cl done') /\ ref_entries_ok k h' done' /\
+                      refcount h' new = 0) /\ length h0 <= length h').
+        assert (SFj : fstable bj Fj).
+        { apply fstable_and.
+          - apply below_fstable. intros h1 h2 A1 A2 (P1 & P2 & P3 & P4 & P5).
+            split; [|split; [|split; [|split]]].
+            + intros c Hc. rewrite A1 by lia. auto.
+            + intros c Hc. rewrite A2 by lia. auto.
+            + rewrite A1; auto.
+            + intros a1 l1 Hi1. destruct (P4 a1 l1 Hi1) as ((o1 & No1 & Q1) & R & Dn1).
+              specialize (Hb1 a1 l1 Hi1). split; [exists o1; rewrite A1; auto|]. split; auto. rewrite A2; auto.
+            + rewrite A2; auto.
+          - split.
+            + intros h1 o1 _ _ _ L. rewrite app_length. lia.
+            + intros h1 c o0 o1 _ _ _ _ _ _ L. now rewrite set_nth_length. }
+        pose proof (dc_container ct Hflat f lx m o bj Fj SFj Nr So Am s0) as DC.
+        assert (Pre : CP ct Fj bj lx o (heap s0)).
+        { split; [split; [exact I|]|split; [unfold bj; lia|rewrite FA; auto]].
+          split; [split; [exact FA|split; [exact FB|split; [exact Nn|split; [exact Re|exact Zn]]]]|exact FC]. }
+        specialize (DC Pre). unfold bind at 1.
+        destruct (dc ct (S (S f)) (VRef lx) m s0) as [[r|e] s1].
+        + destruct DC as (((I1 & ((P1 & P2 & P3 & P4 & P5) & P6)) & Hbj & Nlx) & l' & -> & Hl' & [Ll' Zl'] & Nl').
+          cbn [fst snd].
+          eapply (append_entry_run h0 new cl k done done' a (VRef lx) (VRef l') ((lx, l') :: m) s1); eauto.
+          * split; [exact P1|split; [exact P2|exact P6]].
+          * right. exists l'. split; auto. split; [unfold bj in Hl'; lia|]. split; [lia|].
+            split; [exists o; auto|]. split; auto.
+          * intros k0 sp Hk0 Ha0.
+            rewrite <- (check_same_content ct FUEL (a_ty sp) h0 (heap s1) lx l' o No Nl' Nr So). eauto.
+          * intros lx0 Hl0. rewrite assoc_cons in Hl0. destruct (Nat.eqb_spec lx lx0) as [E0|Ne0]; [subst lx0|].
+            -- exists a. apply in_or_app. right. left. reflexivity.
+            -- destruct (Hm lx0 Hl0) as [a0 Hi0]. exists a0. apply in_or_app. auto.
+        + destruct DC as (I1 & ((P1 & P2 & _) & P6)). split; auto. split; [exact P1|split; [exact P2|exact P6]]. }
+    set (s1 := mkst (h0 ++ [OInst cl []]) (ncalls s) (fail_at s)).
+    assert (Init : CI ct h0 new cl k [] [] (heap s1)).
+    { simpl. split; [|split; [apply Inv_alloc_inst; auto|split; [|split]]].
+      - split; [|split].
+        + intros c Hc. now rewrite nth_error_app1.
+        + intros c Hc. rewrite refcount_app. cbn [refcount]. assert (Z : orefs c (OInst cl []) = 0) by reflexivity. lia.
+        + rewrite app_length. lia.
+      - exists []. split; [|split; [reflexivity|intros a lx []]].
+        rewrite nth_error_app2 by (unfold new; lia). unfold new. now rewrite Nat.sub_diag.
+      - rewrite refcount_app. cbn [refcount]. assert (Z : orefs new (OInst cl []) = 0) by reflexivity.
+        destruct I0 as [_ (Hc & _)]. rewrite (refcount_fresh h0 new Hc) by (unfold new; lia). lia.
+      - intros lx Hl. exfalso. apply Hl. reflexivity. }
+    assert (HT : T (CI ct h0 new cl k [] [])
+                   (memo' <- foldM STEP d [] ;;
+                    (match c_post_copy k with
+                     | Some g => apply_fn g VNone ;;; ret tt
+                     | None => ret tt end) ;;;
+                    ret (VRef new, (l, new) :: memo'))
+                   (fun r h => exists new0 d', fst r = VRef new0 /\ new <= new0 /\
+                                  frame_rel new h0 h /\ Inv h /\
+                                  FI ct h new0 cl d' k /\ map fst d' = map fst d /\ refcount h new0 = 0)
+                   (CE ct h0)).
+    { eapply T_bind; [apply (T_foldM_split STEP (CI ct h0 new cl k) (CE ct h0) d Step [])|].
+      intros memo'. rewrite Hpc.
+      eapply T_bind with (Q := fun _ h => CI ct h0 new cl k d memo' h); [apply T_ret; intros h H; exact H|].
+      intros ?. apply T_ret.
+      intros h (FR & I & (d' & Nn & Ek & Re) & Zn & _). exists new, d'. split; auto. split; auto. split; auto.
+      split; auto. split; [|split; auto]. split; auto. }
+    exact (HT s1 Init).
+  Qed.
+End DcInstance2.
